@@ -140,9 +140,13 @@ func (l *withNewMessage) SafeDetails() []string {
 	return []string{l.message.Redact().StripMarkers()}
 }
 
-func encodeWithNewMessage(_ context.Context, err error) (string, []string, proto.Message) {
+func encodeWithNewMessage(
+	_ context.Context, err error,
+) (string, []string, proto.Message, errbase.MessageType) {
 	l := err.(*withNewMessage)
-	return l.Error(), l.SafeDetails(), &errorspb.StringPayload{Msg: string(l.message)}
+	// The message overrides that of the cause: tell receivers that do not
+	// know this type not to append the cause's message to it.
+	return l.Error(), l.SafeDetails(), &errorspb.StringPayload{Msg: string(l.message)}, errbase.FullMessage
 }
 
 func decodeWithNewMessage(
@@ -160,6 +164,6 @@ func decodeWithNewMessage(
 }
 
 func init() {
-	errbase.RegisterWrapperEncoder(errbase.GetTypeKey((*withNewMessage)(nil)), encodeWithNewMessage)
+	errbase.RegisterWrapperEncoderWithMessageType(errbase.GetTypeKey((*withNewMessage)(nil)), encodeWithNewMessage)
 	errbase.RegisterWrapperDecoder(errbase.GetTypeKey((*withNewMessage)(nil)), decodeWithNewMessage)
 }
